@@ -88,7 +88,18 @@ func (x *X) builtin(s *State, b *ssa.Builtin, c *ssa.CallCommon, args []Val) Val
 			}
 			return Sc{T: v.Len, Sort: "Int"}
 		case MapV:
-			x.fail("len of a map")
+			// len(m): a non-negative integer that is zero exactly when no key is present (all a contract can say about
+			// the cardinality of an unbounded map; enough for the "nothing to do" shortcuts code writes with it)
+			if v.ID == 0 {
+				return Sc{T: "0", Sort: "Int"}
+			}
+			m := s.maps[v.ID]
+			n := x.sym("map.len", "Int")
+			kq := x.bound("k", m.KSort)
+			s.assume(fmt.Sprintf("(and (>= %s 0) (<= %s 9223372036854775807))", n, n))
+			s.assume(fmt.Sprintf("(=> (= %s 0) (forall ((%s %s)) (! (not (select %s %s)) :pattern ((select %s %s)))))", n, kq, m.KSort, m.Dom, kq, m.Dom, kq))
+			s.assume(fmt.Sprintf("(forall ((%s %s)) (! (=> (select %s %s) (> %s 0)) :pattern ((select %s %s))))", kq, m.KSort, m.Dom, kq, n, m.Dom, kq))
+			return Sc{T: n, Sort: "Int"}
 		case St:
 			return Sc{T: fmt.Sprint(len(v.F)), Sort: "Int"}
 		case Sc:
